@@ -257,6 +257,9 @@ func ruleFU(c *Ctx, part string) {
 				}
 			}
 			if ret, ok := ins.(*ssa.Return); ok {
+				if part == "gap" && s.Mismatch && s.Start != 2 {
+					viol["the sequence-gap edge is taken before the start bit of the packet was examined: when the tail of a fragmented unit was lost, the start fragment of the next unit is taken for the gap and that complete unit is dropped although all of its packets arrived"] = ret
+				}
 				if part == "gap" && s.Mismatch && !s.Cleared {
 					viol["the sequence-gap edge returns without clearing fragments: the broken unit is later completed by unrelated fragments (spliced unit)"] = ret
 				}
